@@ -111,6 +111,10 @@ func (b *Writer) Available() int { return len(b.buf) - b.n }
 // If nn < len(p), it also returns an error explaining
 // why the write is short.
 func (b *Writer) Write(p []byte) (nn int, err error) {
+	if b.alignFlush && len(b.buf) == 0 && len(p) > 0 {
+		// nothing can be staged in a block aligned writer without a buffer, the loop below would never make progress
+		return 0, io.ErrShortBuffer
+	}
 	for len(p) > b.Available() && b.err == nil {
 		var n int
 		if b.n == 0 && !b.alignFlush {
